@@ -114,6 +114,20 @@ pub fn translate(repo: &Path, out: &mut Out) {
         j.insert("sbom_table".into(), json!(table));
         j.insert("sbom_formats".into(), json!(formats));
     }
+    // exec.d copy loop: every program goes to <layer>/exec.d/<name>, name taken verbatim
+    if let Some(file) = parse_file(&repo.join("libcnb/src/layer/shared.rs")) {
+        match find_free_fn(&file, "replace_layer_exec_d_programs") {
+            Some(f) => {
+                let b = squash(&f.block);
+                let ok = b.contains("for(name,path)inexec_d_programs{")
+                    && b.contains("fs::copy(path,exec_d_dir.join(name)).map_err(ReplaceLayerExecdProgramsError::IoError)")
+                    && b.contains("letexec_d_dir=layer_dir.join(\"exec.d\");")
+                    && b.contains("ifexec_d_dir.is_dir(){fs::remove_dir_all(&exec_d_dir)?;}");
+                let _ = writeln!(v, "Definition execd_copy_shape_ok : bool := {ok}.");
+            }
+            None => out.miss("shared.rs: fn replace_layer_exec_d_programs"),
+        }
+    }
     // trait API: what the Keep arm of handle_layer does, and the shape facts of the other arms
     match parse_file(&repo.join("libcnb/src/layer/trait_api/handling.rs")) {
         Some(file) => match find_free_fn(&file, "handle_layer") {
